@@ -28,6 +28,21 @@ theorem labels_escape_last (l : BList) (h : l ≠ []) : parseEscaped (escape l) 
   rw [this]
   simp [parseEscapedGo, h]
 
+/-- The same for a whole name as `write_name` reads it (one trailing dot stripped first):
+    an escaped instance label in front of any name is read back as that label followed by
+    the labels of the name. -/
+theorem labelsOf_escape (l rest : BList) (h : l ≠ []) :
+    labelsOf (escape l ++ [0x2E] ++ rest) = l :: labelsOf rest := by
+  unfold labelsOf
+  by_cases hr : rest = []
+  · subst hr
+    have : stripDot (escape l ++ [0x2E] ++ []) = escape l := by
+      simp [stripDot]
+    rw [this, labels_escape_last l h]
+    simp [stripDot, parseEscaped, parseEscapedGo]
+  · rw [stripDot_append _ _ hr]
+    exact labels_escape l _ h
+
 /-- `parse_escaped_name` never produces an empty label, whatever the text (empty labels
     `a..b`, leading dots, a lone `.` are dropped). -/
 theorem parseEscaped_no_empty (name : BList) : ∀ l ∈ parseEscaped name, l ≠ [] :=
@@ -39,6 +54,9 @@ example : parseEscaped (escape [0x61, 0x2E, 0x62, 0x5C] ++ [0x2E] ++ [0x78, 0x2E
     [[0x61, 0x2E, 0x62, 0x5C], [0x78], [0x79, 0x7A]] := by decide
 
 example : escape [0x61, 0x2E, 0x62, 0x5C] = [0x61, 0x5C, 0x2E, 0x62, 0x5C, 0x5C] := by decide
+
+/-- a full name with trailing dot: `a\\.b.x.` reads as `a.b`, `x` -/
+example : labelsOf (escape [0x61, 0x2E, 0x62] ++ [0x2E] ++ [0x78, 0x2E]) = [[0x61, 0x2E, 0x62], [0x78]] := by decide
 
 /-- empty labels are dropped: `.a..b.` reads as `a`, `b` -/
 example : parseEscaped [0x2E, 0x61, 0x2E, 0x2E, 0x62, 0x2E] = [[0x61], [0x62]] := by decide
@@ -330,6 +348,23 @@ example : (match encode ex1 with | .ok ds => ds.map Ref.parse | _ => []) =
             authorities := [],
             additionals := [{ name := [[0x63, 0x2E, 0x64], [0x61], [0x62]], type := 1, cls := 1, flush := true,
                               ttl := 4500, rdata := .a [10, 0, 0, 1] }] }] := by decide +kernel
+
+/-- The monitor's core predicate `soundCore` (what `./check C02` evaluates on the packets
+    of the REAL encoder) is true of every packet list the model produces for a message in
+    the domain: it is the conclusion of `encode_sound` in decidable form. -/
+theorem soundCore_holds (o : OutMsg) (ds : List Data) (h : encode o = .ok ds) (hw : MsgWF o)
+    (hq : questionsSize o ≤ MAX_MSG_ABSOLUTE) : soundCore o ds = true := by
+  obtain ⟨ms, h1, h2, h3, h4, h5, h6, init, last, h7, h8, h9⟩ := encode_sound o ds h hw hq
+  unfold soundCore
+  rw [h1, allSome_map_some]
+  simp only [coreOn, Bool.and_eq_true, List.all_eq_true, decide_eq_true_eq, beq_iff_eq]
+  refine ⟨h2, ⟨⟨⟨⟨h3, leftOut_of_sublist _ _ h4⟩, leftOut_of_sublist _ _ h5⟩, leftOut_of_sublist _ _ h6⟩, ?_⟩⟩
+  subst h7
+  simp only [flagsOK, List.reverse_append, List.reverse_cons, List.reverse_nil, List.nil_append,
+    List.singleton_append, Bool.and_eq_true, beq_iff_eq, List.all_eq_true, List.mem_reverse]
+  exact ⟨h9, h8⟩
+
+example : soundCore ex1 (match encode ex1 with | .ok ds => ds | _ => []) = true := by decide +kernel
 
 /-- The last clause of the property, "the crate's own decoder reads the same content from
     those packets", as a statement about the decoder model of C01 (`Wire.decode`): NOT
